@@ -11,11 +11,13 @@ package main
 //   C11 bopen  <curve> <size> <tau> <gamma> <z> <p0;p1;…> [<nbDigests>] → <gamma> <values> <h> <verdict>
 //   C11 multi  <curve> <tau> <lambdas> <cs> <h:v,…> <zs>    → 1 | 0 | err:…   (λ used by the model only; Go draws its own)
 //   C11 ser    <curve> <size> <tau> <kind> [<h> <vs>]       → 1 | 0:<reason>
+//   C11 stream / reread / rereadp / mpcchain / seal / bopen0 : c11_stream.go
 //
 // tau is hex, or m1:<hex of fr.Generator(4)> for NewSRS(size, −1). Lists are comma separated hex, "-" = empty.
 
 import (
 	"bytes"
+	"io"
 	"math/big"
 	"strings"
 )
@@ -37,6 +39,12 @@ type kzgCurve interface {
 	batchVerifyN(ds, hs []any, vs, zs []*big.Int, srs any) error
 	vkBytes(srs any) []byte
 	ser(kind string, srs any, h any, vs []*big.Int) string
+	// objects on shared readers / re-used destinations (c11_stream.go)
+	codec(kind string, srs any, h any, vs []*big.Int, dst any) (c11codec, any)
+	asSRS(dst any, written any) (any, int)
+	proofOf(dst any) (any, []*big.Int)
+	mpcChain(mode string, n, rounds, drop, trailer int, mk func([]byte) (io.Reader, func() int)) string
+	seal(n, rounds int, after string) string
 }
 
 var kzgCurves = map[string]kzgCurve{}
@@ -335,7 +343,7 @@ func execC11(a []string) string {
 		}
 		return "1"
 	}
-	return "bad-op"
+	return execC11Stream(op, name, c, a)
 }
 
 // ---------------------------------------------------------------------------------------------------------------
@@ -683,4 +691,5 @@ func genC11Curve(g *gen, name string, c kzgCurve) {
 	for _, kind := range []string{"mpc0", "mpc1", "mpc2"} {
 		g.emit("C11 ser %s %x 1 %s", name, 2+g.rng.intn(3), kind)
 	}
+	genC11Stream(g, name, c, sc, tauTok)
 }
